@@ -300,12 +300,14 @@ class Interp:
     # ------------------------------------------------------------------ statements
     def exec_block_in(self, stmts, env, module_level=False):
         for s in stmts:
+            if not module_level and s[0] in ("let", "fn", "class"):
+                # names are bound lexically: a closure created before this declaration must keep seeing whatever
+                # the name meant at its own position, so every local declaration opens a new region of the scope
+                env = Env(env)
             self.exec_stmt(s, env, module_level)
 
     def exec_block(self, stmts, env):
-        inner = Env(env)
-        for s in stmts:
-            self.exec_stmt(s, inner, False)
+        self.exec_block_in(stmts, Env(env), False)
 
     def declare(self, env, name, value, module_level, kind="let"):
         aid = self.frames[-1].aid
@@ -955,8 +957,7 @@ class Interp:
             body = fn.body
             if body[0] == "expr":
                 return self.eval(body[1], env)
-            for s in body[1]:
-                self.exec_stmt(s, env, False)
+            self.exec_block_in(body[1], env, False)
             if fn.kind == "init":
                 return recv
             return None
